@@ -89,7 +89,7 @@ def convert(events, label):
     return with_hints(out)
 
 
-LOOKAHEAD_MS = 500
+LOOKAHEAD_MS = 3000
 
 
 def with_hints(events):
